@@ -1285,10 +1285,15 @@ impl Union for AdjacencyMap {
                                         j += 1;
                                     }
                                     Ordering::Equal => {
-                                        let union_set =
-                                            union_sets_unsafe(&a.1, &b.1);
+                                        let (key, set_a) =
+                                            read(lhs_ptr.add(i));
 
-                                        local.push((a.0, union_set));
+                                        let (_, set_b) = read(rhs_ptr.add(j));
+
+                                        let union_set =
+                                            union_sets_unsafe(&set_a, &set_b);
+
+                                        local.push((key, union_set));
                                         i += 1;
                                         j += 1;
                                     }
@@ -1311,6 +1316,19 @@ impl Union for AdjacencyMap {
                 merged_entries.extend(h.join().unwrap());
             }
         });
+
+        // The workers moved every entry out of the two vectors exactly once.
+        // Release the buffers without dropping the entries again.
+        let mut lhs_vec = ManuallyDrop::into_inner(lhs_vec);
+        let mut rhs_vec = ManuallyDrop::into_inner(rhs_vec);
+
+        unsafe {
+            lhs_vec.set_len(0);
+            rhs_vec.set_len(0);
+        }
+
+        drop(lhs_vec);
+        drop(rhs_vec);
 
         merged_entries.sort_unstable_by_key(|&(k, _)| k);
 
